@@ -589,6 +589,23 @@ fn g9(out: &mut Out, rng: &mut Rng, maxlen: usize) -> io::Result<()> {
             }
         }
     }
+    // every byte value at every position of size lines with 1..17 digits (helpers that are more lenient than
+    // the grammar, e.g. a radix parser that takes a sign), with and without data behind the line
+    for n in 1..=17usize {
+        for tail in [&b"\r\n"[..], b" \r\n", b";x\r\n", b"\r\nabc"] {
+            let mut base: Vec<u8> = (0..n).map(|i| if i == 0 { b'1' } else { b'0' }).collect();
+            base.extend_from_slice(tail);
+            for p in 0..base.len() {
+                for b in 0..=255u8 {
+                    if b == base[p] { continue; }
+                    let mut t = base.clone();
+                    t[p] = b;
+                    writeln!(out, "chunk {}", hex(&t))?;
+                    if p < n && b == b'+' { writeln!(out, "chunk {}", hex(&t[..n]))?; }
+                }
+            }
+        }
+    }
     for _ in 0..200 {
         let mut s = b"1f;".to_vec();
         for _ in 0..rng.below(120) {
@@ -859,7 +876,7 @@ fn g_hist(out: &mut Out, rng: &mut Rng, count: usize) -> io::Result<()> {
 
 /// placements: start guard and alignments 0..31, and forced runtime features, on templates
 fn g_place(out: &mut Out, rng: &mut Rng, count: usize) -> io::Result<()> {
-    let places: Vec<String> = std::iter::once("start".to_string()).chain((0..32).map(|a| format!("a{}", a))).collect();
+    let places: Vec<String> = ["start", "jb", "jh", "g1", "g8", "g17", "g31", "p1", "p9", "p20", "p33"].iter().map(|s| s.to_string()).chain((0..32).map(|a| format!("a{}", a))).collect();
     let emit = |out: &mut Out, kind: &str, cfg: u32, cap: usize, s: &[u8], rng: &mut Rng| -> io::Result<()> {
         let pl = rng.pick(&places).clone();
         match kind {
@@ -895,6 +912,57 @@ fn g_place(out: &mut Out, rng: &mut Rng, count: usize) -> io::Result<()> {
             }
         }
     }
+    // page-straddling placements (a page boundary at every offset of the message), buffers ending 1..63 bytes
+    // before the unmapped page (whole and every prefix: a vector load of the tail that runs past the end of the
+    // buffer), and buffer / header array touching each other in one mapping (both orders)
+    let gaps = [1usize, 2, 7, 8, 9, 15, 16, 17, 24, 31, 32, 33, 63];
+    for (kind, list) in [("req", REQ_TEMPLATES), ("resp", RESP_TEMPLATES)] {
+        for (t, cfgs) in list {
+            let k = t.iter().filter(|&&b| b == b'\n').count();
+            let cfg = cfgs[0];
+            for off in 1..=t.len() {
+                writeln!(out, "place p{} {} {} {} {}", off, kind, cfg, k + 1, hex(t))?;
+            }
+            for &g in &gaps {
+                writeln!(out, "place g{} {} {} {} {}", g, kind, cfg, k + 1, hex(t))?;
+            }
+            for cut in 1..t.len() {
+                for &g in &[1usize, 8, 16, 24, 31] {
+                    writeln!(out, "place g{} {} {} {} {}", g, kind, cfg, k + 1, hex(&t[..cut]))?;
+                }
+            }
+            for &c in cfgs.iter() {
+                for cap in [k + 1, 1, 0] {
+                    writeln!(out, "place jb {} {} {} {}", kind, c, cap, hex(t))?;
+                    writeln!(out, "place jh {} {} {} {}", kind, c, cap, hex(t))?;
+                }
+            }
+        }
+    }
+    for t in HDRS_TEMPLATES {
+        let k = t.iter().filter(|&&b| b == b'\n').count();
+        for off in 1..=t.len() { writeln!(out, "place p{} hdrs {} {}", off, k + 1, hex(t))?; }
+        for &g in &gaps { writeln!(out, "place g{} hdrs {} {}", g, k + 1, hex(t))?; }
+        for cap in [k + 1, 1] {
+            writeln!(out, "place jb hdrs {} {}", cap, hex(t))?;
+            writeln!(out, "place jh hdrs {} {}", cap, hex(t))?;
+        }
+    }
+    for t in CHUNK_TEMPLATES {
+        for off in 1..=t.len() { writeln!(out, "place p{} chunk {}", off, hex(t))?; }
+        for &g in &gaps { writeln!(out, "place g{} chunk {}", g, hex(t))?; }
+    }
+    // long values / targets with HTAB and obs-text inside every 32-byte block, page boundary at every offset
+    for (kind, pre, post) in [("req", &b"GET /"[..], &b" HTTP/1.1\r\nA: b\r\n\r\n"[..]), ("req", b"GET / HTTP/1.1\r\nA: ", b"\r\nB: c\r\n\r\n"), ("resp", b"HTTP/1.1 200 OK\r\nLong-Name-", b": v\r\n\r\n")] {
+        let mut x = pre.to_vec();
+        let body: Vec<u8> = (0..150usize).map(|i| if pre.ends_with(b": ") && i % 11 == 5 { b'\t' } else if pre.ends_with(b": ") && i % 13 == 7 { 0xe9 } else { b'a' + (i % 26) as u8 }).collect();
+        x.extend_from_slice(&body);
+        x.extend_from_slice(post);
+        for off in 1..=x.len() { writeln!(out, "place p{} {} 0 3 {}", off, kind, hex(&x))?; }
+        for cut in (pre.len()..x.len()).step_by(3) {
+            for &g in &[1usize, 9, 17, 31] { writeln!(out, "place g{} {} 0 3 {}", g, kind, hex(&x[..cut]))?; }
+        }
+    }
     for _ in 0..count {
         match rng.below(4) {
             0 => { let (t, c) = rng.pick(REQ_TEMPLATES); let mut s = t.to_vec(); mutate(rng, &mut s); let cfg = *rng.pick(c); emit(out, "req", cfg, 3, &s, rng)?; }
@@ -924,6 +992,30 @@ fn g_split(out: &mut Out, rng: &mut Rng, count: usize) -> io::Result<()> {
         }
     }
     for t in HDRS_TEMPLATES { writeln!(out, "split hdrs 4 {}", hex(t))?; }
+    // chunk-size lines: every byte value in front of / inside a short digit run, then the line end and data
+    for n in [1usize, 2, 3, 7, 8, 16] {
+        for p in [0usize, n / 2, n] {
+            for b in 0..=255u8 {
+                let mut x: Vec<u8> = (0..n).map(|i| if i == 0 { b'1' } else { b'f' }).collect();
+                x.insert(p.min(x.len()), b);
+                x.extend_from_slice(b"\r\nx");
+                writeln!(out, "split chunk {}", hex(&x))?;
+            }
+        }
+    }
+    // a body in the same read: bytes behind the complete head must not change the answer
+    for (kind, list) in [("req", REQ_TEMPLATES), ("resp", RESP_TEMPLATES)] {
+        for (t, cfgs) in list {
+            let k = t.iter().filter(|&&b| b == b'\n').count();
+            for &cfg in cfgs.iter() {
+                for &b in &[0u8, b'\r', b'\n', b' ', 0xff, b'a'] {
+                    let mut x = t.to_vec();
+                    x.extend(std::iter::repeat(b).take(9));
+                    writeln!(out, "split {} {} {} {}", kind, cfg, k + 1, hex(&x))?;
+                }
+            }
+        }
+    }
     for t in CHUNK_TEMPLATES { writeln!(out, "split chunk {}", hex(t))?; }
     for _ in 0..count {
         match rng.below(8) {
@@ -1000,6 +1092,18 @@ fn g_caps(out: &mut Out, rng: &mut Rng, count: usize) -> io::Result<()> {
         let k = s.iter().filter(|&&b| b == b'\n').count();
         writeln!(out, "capsweep {} {} {} {}", if isreq { "req" } else { "resp" }, rng.pick(cfgs), k + 1, hex(&s))?;
     }
+    // the same law when buffer and header array touch in memory
+    for (kind, list) in [("req", REQ_TEMPLATES), ("resp", RESP_TEMPLATES)] {
+        for (t, cfgs) in list {
+            let k = t.iter().filter(|&&b| b == b'\n').count();
+            for &cfg in cfgs.iter() {
+                for j in ["jb", "jh"] {
+                    writeln!(out, "capsweepj {} {} {} {} {}", j, kind, cfg, k + 2, hex(t))?;
+                    writeln!(out, "capsweepj {} {} {} {} {}", j, kind, cfg, k + 1, hex(&t[..t.len() - 1]))?;
+                }
+            }
+        }
+    }
     Ok(())
 }
 
@@ -1025,7 +1129,11 @@ fn g_hrel(out: &mut Out, rng: &mut Rng, count: usize) -> io::Result<()> {
 /// under the option set that gives the run its lenient meaning and under the default.  Returns
 /// (kind, cfg, cap, complete buffer, offset just past the run).
 fn long_runs(thorough: bool) -> Vec<(&'static str, u32, usize, Vec<u8>, usize)> {
-    let lens: Vec<usize> = if thorough { vec![257, 1025, 4097, 65537] } else { vec![257, 1025, 4097] };
+    long_runs_of(if thorough { &[257, 1025, 4097, 65537] } else { &[257, 1025, 4097] })
+}
+
+fn long_runs_of(lens: &[usize]) -> Vec<(&'static str, u32, usize, Vec<u8>, usize)> {
+    let lens: Vec<usize> = lens.to_vec();
     let mut v: Vec<(&'static str, u32, usize, Vec<u8>, usize)> = Vec::new();
     let mk = |pre: &[u8], unit: &[u8], n: usize, post: &[u8]| -> (Vec<u8>, usize) {
         let mut s = pre.to_vec();
@@ -1109,6 +1217,52 @@ fn long_runs(thorough: bool) -> Vec<(&'static str, u32, usize, Vec<u8>, usize)> 
     v
 }
 
+/// G13: a run (40 and 72 repetitions: one, two and four 8-byte words, one and two 16- and 32-byte blocks plus
+/// remainders) of every repeatable element with ONE foreign byte inside it, at every offset of the run and for
+/// every boundary byte value — what a word- or block-at-a-time fast path over that element gets wrong.
+fn g_foreign(out: &mut Out, thorough: bool) -> io::Result<()> {
+    let foreign: Vec<u8> = if thorough { (0..=255u8).collect() } else { SPECIAL.to_vec() };
+    for (kind, cfg, cap, s, at) in long_runs_of(&[40, 72]) {
+        if cfg == 127 || cap != 2 { continue; }
+        // the run occupies s[start..at]; its unit length is not recorded: recover the run start from the
+        // longest periodic suffix ending at `at` — simpler: substitute at every offset of the last 72 bytes
+        let lo = at.saturating_sub(76);
+        for p in lo..at.min(s.len()) {
+            for &b in &foreign {
+                if s[p] == b { continue; }
+                let mut t = s.clone();
+                t[p] = b;
+                line(out, kind, cfg, cap, &t)?;
+            }
+        }
+    }
+    // bytes behind a complete head (a body in the same read): every boundary value, alone and as a word
+    for (kind, list) in [("req", REQ_TEMPLATES), ("resp", RESP_TEMPLATES)] {
+        for (t, cfgs) in list {
+            let k = t.iter().filter(|&&b| b == b'\n').count();
+            for &cfg in cfgs.iter() {
+                for &b in SPECIAL.iter() {
+                    for rep in [1usize, 8, 33] {
+                        let mut x = t.to_vec();
+                        x.extend(std::iter::repeat(b).take(rep));
+                        line(out, kind, cfg, k + 1, &x)?;
+                    }
+                }
+            }
+        }
+    }
+    for t in HDRS_TEMPLATES {
+        for &b in SPECIAL.iter() {
+            for rep in [1usize, 8, 33] {
+                let mut x = t.to_vec();
+                x.extend(std::iter::repeat(b).take(rep));
+                line(out, "hdrs", 0, 4, &x)?;
+            }
+        }
+    }
+    Ok(())
+}
+
 fn g_longruns(out: &mut Out, thorough: bool, mode: &str) -> io::Result<()> {
     for (kind, cfg, cap, s, at) in long_runs(thorough) {
         // (the executable model is quadratic in the length of a single token: the longest runs are judged
@@ -1170,6 +1324,7 @@ pub fn cmd_gen(args: &[String]) -> io::Result<()> {
             g3(&mut out, &mut rng, thorough)?;
             g4(&mut out, &mut rng, if thorough { 2_000_000 } else { 150_000 })?;
             g_longruns(&mut out, thorough, "core")?;
+            g_foreign(&mut out, thorough)?;
         }
         "block" => g2(&mut out, if thorough { 5 } else { 4 }, thorough)?,
         "chunk" => {
@@ -1182,7 +1337,7 @@ pub fn cmd_gen(args: &[String]) -> io::Result<()> {
         "entries" => { g_entries(&mut out, &mut rng, if thorough { 200_000 } else { 10_000 })?; g_longruns(&mut out, false, "entries")?; }
         "hist" => { g_hist(&mut out, &mut rng, if thorough { 400_000 } else { 30_000 })?; g_longruns(&mut out, false, "hist")?; }
         "place" => g_place(&mut out, &mut rng, if thorough { 300_000 } else { 20_000 })?,
-        "classes" => writeln!(out, "classes")?,
+        "classes" => { writeln!(out, "classes")?; writeln!(out, "errtext")?; }
         "caps" => { g_caps(&mut out, &mut rng, if thorough { 300_000 } else { 20_000 })?; g_longruns(&mut out, false, "caps")?; }
         "split" => g_split(&mut out, &mut rng, if thorough { 300_000 } else { 12_000 })?,
         "cfgpair" => { g_cfgpair(&mut out, &mut rng, if thorough { 1_000_000 } else { 60_000 }, thorough)?; g_longruns(&mut out, thorough, "cfgpair")?; }
@@ -1208,48 +1363,66 @@ fn fill_to(mut s: Vec<u8>, unit: &[u8], n: usize, tail: &[u8]) -> Vec<u8> {
     s
 }
 
+/// a family member: `pre ++ unit^k ++ tail`, as many units as fit into `n` bytes
+pub struct Fam { pub name: &'static str, pub kind: &'static str, pub cfg: u32, pub buf: Vec<u8>, pub pre: usize, pub unit: usize, pub tail: usize }
+
+fn fill_parts(s: Vec<u8>, unit: &[u8], n: usize, tail: &[u8]) -> (Vec<u8>, usize, usize, usize) {
+    let pre = s.len();
+    (fill_to(s, unit, n, tail), pre, unit.len(), tail.len())
+}
+
+fn fam(name: &'static str, kind: &'static str, cfg: u32, p: (Vec<u8>, usize, usize, usize)) -> Fam {
+    Fam { name, kind, cfg, buf: p.0, pre: p.1, unit: p.2, tail: p.3 }
+}
+
 pub fn cost_families(n: usize) -> Vec<(&'static str, &'static str, u32, Vec<u8>)> {
+    cost_families_ex(n).into_iter().map(|f| (f.name, f.kind, f.cfg, f.buf)).collect()
+}
+
+pub fn cost_families_ex(n: usize) -> Vec<Fam> {
     let rq = b"GET / HTTP/1.1\r\n".to_vec();
     let rs = b"HTTP/1.1 200 OK\r\n".to_vec();
-    let mut v: Vec<(&'static str, &'static str, u32, Vec<u8>)> = Vec::new();
+    let mut v: Vec<Fam> = Vec::new();
     let mut a = rs.clone(); a.extend_from_slice(b"A: b\r\n");
-    v.push(("folds-in-one-value", "resp", 2, fill_to(a, b" c\r\n", n, b"\r\n")));
+    v.push(fam("folds-in-one-value", "resp", 2, fill_parts(a, b" c\r\n", n, b"\r\n")));
     let mut a = rs.clone(); a.extend_from_slice(b"A:");
-    v.push(("folds-before-value", "resp", 2, fill_to(a, b"\r\n ", n, b"v\r\n\r\n")));
-    v.push(("ignored-short-lines-resp", "resp", 32, fill_to(rs.clone(), b":\n", n, b"\r\n")));
-    v.push(("ignored-short-lines-req", "req", 64, fill_to(rq.clone(), b":\n", n, b"\r\n")));
-    v.push(("ignored-long-lines", "req", 64, fill_to(rq.clone(), b"bad line with some text in it and no colon at all\r\n", n, b"\r\n")));
+    v.push(fam("folds-before-value", "resp", 2, fill_parts(a, b"\r\n ", n, b"v\r\n\r\n")));
+    v.push(fam("ignored-short-lines-resp", "resp", 32, fill_parts(rs.clone(), b":\n", n, b"\r\n")));
+    v.push(fam("ignored-short-lines-req", "req", 64, fill_parts(rq.clone(), b":\n", n, b"\r\n")));
+    v.push(fam("ignored-long-lines", "req", 64, fill_parts(rq.clone(), b"bad line with some text in it and no colon at all\r\n", n, b"\r\n")));
     let mut a = rq.clone(); a.extend_from_slice(b"A:");
-    v.push(("whitespace-after-colon", "req", 0, fill_to(a, b" ", n, b"v\r\n\r\n")));
+    v.push(fam("whitespace-after-colon", "req", 0, fill_parts(a, b" ", n, b"v\r\n\r\n")));
     let mut a = rs.clone(); a.extend_from_slice(b"A");
-    v.push(("whitespace-after-name", "resp", 1, fill_to(a, b" ", n, b":v\r\n\r\n")));
-    v.push(("leading-whitespace", "req", 16, fill_to(rq.clone(), b"\t", n, b"A: b\r\n\r\n")));
+    v.push(fam("whitespace-after-name", "resp", 1, fill_parts(a, b" ", n, b":v\r\n\r\n")));
+    v.push(fam("leading-whitespace", "req", 16, fill_parts(rq.clone(), b"\t", n, b"A: b\r\n\r\n")));
     let mut a = rq.clone(); a.extend_from_slice(b"A: v");
-    v.push(("tabs-in-value(swar-near-miss)", "req", 0, fill_to(a, b"\t", n, b"\r\n\r\n")));
+    v.push(fam("tabs-in-value(swar-near-miss)", "req", 0, fill_parts(a, b"\t", n, b"\r\n\r\n")));
     let mut a = rq.clone(); a.extend_from_slice(b"A: v");
-    v.push(("obs-text-value", "req", 0, fill_to(a, b"\xff\x80", n, b"\r\n\r\n")));
+    v.push(fam("obs-text-value", "req", 0, fill_parts(a, b"\xff\x80", n, b"\r\n\r\n")));
     let mut a = rq.clone(); a.extend_from_slice(b"A: v");
-    v.push(("trailing-whitespace-value", "req", 0, fill_to(a, b" ", n, b"\r\n\r\n")));
-    v.push(("many-small-headers", "req", 0, fill_to(rq.clone(), b"a:b\r\n", n, b"\r\n")));
-    v.push(("long-target", "req", 0, fill_to(b"GET /".to_vec(), b"a", n, b" HTTP/1.1\r\n\r\n")));
-    v.push(("long-reason", "resp", 0, fill_to(b"HTTP/1.1 200 ".to_vec(), b"r", n, b"\r\n\r\n")));
-    v.push(("leading-empty-lines", "req", 0, fill_to(Vec::new(), b"\r\n", n, b"GET / HTTP/1.1\r\n\r\n")));
-    v.push(("leading-empty-lines-lf", "resp", 0, fill_to(Vec::new(), b"\n", n, b"HTTP/1.1 200 OK\r\n\r\n")));
-    v.push(("multi-spaces", "req", 4, fill_to(b"GET ".to_vec(), b" ", n, b"/ HTTP/1.1\r\n\r\n")));
-    v.push(("partial-folds", "resp", 2, fill_to(rs.clone(), b"A: b\r\n c\r\n", n, b"")));
-    v.push(("chunk-extension", "chunk", 0, fill_to(b"1f;".to_vec(), b"x", n, b"\r\n")));
-    v.push(("chunk-lws", "chunk", 0, fill_to(b"1f".to_vec(), b" ", n, b"\r\n")));
-    v.push(("chunk-lws-ext", "chunk", 0, fill_to(b"1f".to_vec(), b"\t ", n, b";x\r\n")));
-    v.push(("multi-spaces-resp-code", "resp", 8, fill_to(b"HTTP/1.1 200".to_vec(), b" ", n, b"OK\r\n\r\n")));
-    v.push(("multi-spaces-resp-version", "resp", 8, fill_to(b"HTTP/1.1".to_vec(), b" ", n, b"200 OK\r\n\r\n")));
-    v.push(("multi-spaces-req-version", "req", 4, fill_to(b"GET /".to_vec(), b" ", n, b"HTTP/1.1\r\n\r\n")));
-    v.push(("long-target-utf8(swar-near-miss)", "req", 0, fill_to(b"GET /".to_vec(), b"\xc3\xa9", n, b" HTTP/1.1\r\n\r\n")));
+    v.push(fam("trailing-whitespace-value", "req", 0, fill_parts(a, b" ", n, b"\r\n\r\n")));
+    v.push(fam("many-small-headers", "req", 0, fill_parts(rq.clone(), b"a:b\r\n", n, b"\r\n")));
+    v.push(fam("many-small-headers-lf", "req", 0, fill_parts(b"GET / HTTP/1.1\n".to_vec(), b"a:b\n", n, b"\n")));
+    v.push(fam("many-headers-lf-resp", "resp", 0, fill_parts(b"HTTP/1.1 200 OK\n".to_vec(), b"key: some value\n", n, b"\n")));
+    v.push(fam("long-target", "req", 0, fill_parts(b"GET /".to_vec(), b"a", n, b" HTTP/1.1\r\n\r\n")));
+    v.push(fam("long-reason", "resp", 0, fill_parts(b"HTTP/1.1 200 ".to_vec(), b"r", n, b"\r\n\r\n")));
+    v.push(fam("leading-empty-lines", "req", 0, fill_parts(Vec::new(), b"\r\n", n, b"GET / HTTP/1.1\r\n\r\n")));
+    v.push(fam("leading-empty-lines-lf", "resp", 0, fill_parts(Vec::new(), b"\n", n, b"HTTP/1.1 200 OK\r\n\r\n")));
+    v.push(fam("multi-spaces", "req", 4, fill_parts(b"GET ".to_vec(), b" ", n, b"/ HTTP/1.1\r\n\r\n")));
+    v.push(fam("partial-folds", "resp", 2, fill_parts(rs.clone(), b"A: b\r\n c\r\n", n, b"")));
+    v.push(fam("chunk-extension", "chunk", 0, fill_parts(b"1f;".to_vec(), b"x", n, b"\r\n")));
+    v.push(fam("chunk-lws", "chunk", 0, fill_parts(b"1f".to_vec(), b" ", n, b"\r\n")));
+    v.push(fam("chunk-lws-ext", "chunk", 0, fill_parts(b"1f".to_vec(), b"\t ", n, b";x\r\n")));
+    v.push(fam("multi-spaces-resp-code", "resp", 8, fill_parts(b"HTTP/1.1 200".to_vec(), b" ", n, b"OK\r\n\r\n")));
+    v.push(fam("multi-spaces-resp-version", "resp", 8, fill_parts(b"HTTP/1.1".to_vec(), b" ", n, b"200 OK\r\n\r\n")));
+    v.push(fam("multi-spaces-req-version", "req", 4, fill_parts(b"GET /".to_vec(), b" ", n, b"HTTP/1.1\r\n\r\n")));
+    v.push(fam("long-target-utf8(swar-near-miss)", "req", 0, fill_parts(b"GET /".to_vec(), b"\xc3\xa9", n, b" HTTP/1.1\r\n\r\n")));
     let mut a = rq.clone(); a.extend_from_slice(b"a");
-    v.push(("long-header-name", "req", 0, fill_to(a, b"!#$%&'*+-.^_`|~09AZaz", n, b": v\r\n\r\n")));
-    v.push(("long-method", "req", 0, fill_to(Vec::new(), b"M", n, b" / HTTP/1.1\r\n\r\n")));
-    v.push(("reason-obs-text", "resp", 0, fill_to(b"HTTP/1.1 200 ".to_vec(), b"\t\xff ", n, b"\r\n\r\n")));
+    v.push(fam("long-header-name", "req", 0, fill_parts(a, b"!#$%&'*+-.^_`|~09AZaz", n, b": v\r\n\r\n")));
+    v.push(fam("long-method", "req", 0, fill_parts(Vec::new(), b"M", n, b" / HTTP/1.1\r\n\r\n")));
+    v.push(fam("reason-obs-text", "resp", 0, fill_parts(b"HTTP/1.1 200 ".to_vec(), b"\t\xff ", n, b"\r\n\r\n")));
     let mut a = rs.clone(); a.extend_from_slice(b"A: v");
-    v.push(("value-alternating(near-miss-every-block)", "resp", 0, fill_to(a, b"abcdefg\tabcdefghijklmn\x80", n, b"\r\n\r\n")));
+    v.push(fam("value-alternating(near-miss-every-block)", "resp", 0, fill_parts(a, b"abcdefg\tabcdefghijklmn\x80", n, b"\r\n\r\n")));
     v
 }
 
@@ -1344,6 +1517,112 @@ pub fn cmd_cost(args: &[String]) {
                 if dt > 200_000_000 { break; }
             }
             println!("cost {} {} cfg={} size={} ns={} {} status={}", name, kind, cfg, buf.len(), best, counters, status.replace(' ', ""));
+        }
+    }
+}
+
+// ------------------------------------------------------------------------------------------------
+// G14: scaling.  Every G10 family member is `pre ++ unit^k ++ tail`; every number the parser reports for it
+// (status kind, n, header count, offsets and lengths of the fields, of the first and of the last header) is an
+// affine function of the buffer length.  Two small members (a few hundred bytes: sizes at which the model
+// judges the real code in the ordinary families) and one huge member (9 MiB quick, 40 MiB thorough) are parsed
+// through every entry point, whole and in three variations; ./check verifies that the huge observation is the
+// affine extrapolation of the two small ones and that the entry points agree.  This is what finds limits and
+// counters that only bite at sizes no model-judged case reaches (u16/u32 lengths, "hardening" caps at 64 KiB …
+// 4 Mi lines, windows).  Rust side only; a supporting stage, not a proof.
+
+fn scale_obs(kind: &str, entry: &str, cfg: u32, buf: &[u8], cap: usize) -> String {
+    use std::mem::MaybeUninit;
+    let config = crate::mk_config(cfg);
+    let off = |p: *const u8, l: usize| -> String { if l == 0 { "e".to_string() } else { format!("{}+{}", (p as usize).wrapping_sub(buf.as_ptr() as usize), l) } };
+    let hdrs = |hs: &[httparse::Header<'_>]| -> String {
+        let one = |h: &httparse::Header<'_>| format!("{}:{}", off(h.name.as_ptr(), h.name.len()), off(h.value.as_ptr(), h.value.len()));
+        match (hs.first(), hs.last()) { (Some(a), Some(b)) => format!("{}|{}", one(a), one(b)), _ => "-".to_string() }
+    };
+    let st = |r: &Result<httparse::Status<usize>, httparse::Error>| match r {
+        Ok(httparse::Status::Complete(n)) => format!("C n={}", n),
+        Ok(httparse::Status::Partial) => "P n=0".to_string(),
+        Err(e) => format!("E:{:?} n=0", e),
+    };
+    let mut headers = vec![httparse::EMPTY_HEADER; if entry.ends_with("uninit") { 0 } else { cap }];
+    let mut uninit: Vec<MaybeUninit<httparse::Header<'_>>> = Vec::with_capacity(cap);
+    // SAFETY: MaybeUninit needs no initialisation
+    unsafe { uninit.set_len(if entry.ends_with("uninit") { cap } else { 0 }) };
+    match kind {
+        "req" => {
+            let mut r = httparse::Request::new(&mut headers);
+            let res = match entry {
+                "parse" => r.parse(buf),
+                "cfg" => config.parse_request(&mut r, buf),
+                "parse_uninit" => r.parse_with_uninit_headers(buf, &mut uninit),
+                _ => config.parse_request_with_uninit_headers(&mut r, buf, &mut uninit),
+            };
+            let done = matches!(res, Ok(httparse::Status::Complete(_)));
+            format!("{} hc={} m={} p={} v={} h={}", st(&res), if done { r.headers.len() } else { 0 },
+                    r.method.map(|s| off(s.as_ptr(), s.len())).unwrap_or("-".into()), r.path.map(|s| off(s.as_ptr(), s.len())).unwrap_or("-".into()),
+                    r.version.map(|v| v.to_string()).unwrap_or("-".into()), if done { hdrs(r.headers) } else { "-".into() })
+        }
+        "resp" => {
+            let mut r = httparse::Response::new(&mut headers);
+            let res = match entry {
+                "parse" => r.parse(buf),
+                "cfg" => config.parse_response(&mut r, buf),
+                _ => config.parse_response_with_uninit_headers(&mut r, buf, &mut uninit),
+            };
+            let done = matches!(res, Ok(httparse::Status::Complete(_)));
+            format!("{} hc={} c={} r={} v={} h={}", st(&res), if done { r.headers.len() } else { 0 },
+                    r.code.map(|v| v.to_string()).unwrap_or("-".into()), r.reason.map(|s| off(s.as_ptr(), s.len())).unwrap_or("-".into()),
+                    r.version.map(|v| v.to_string()).unwrap_or("-".into()), if done { hdrs(r.headers) } else { "-".into() })
+        }
+        "hdrs" => {
+            match httparse::parse_headers(buf, &mut headers) {
+                Ok(httparse::Status::Complete((n, hs))) => format!("C n={} hc={} h={}", n, hs.len(), hdrs(hs)),
+                Ok(httparse::Status::Partial) => "P n=0 hc=0 h=-".to_string(),
+                Err(e) => format!("E:{:?} n=0 hc=0 h=-", e),
+            }
+        }
+        _ => match httparse::parse_chunk_size(buf) {
+            Ok(httparse::Status::Complete((n, sz))) => format!("C n={} hc=0 size={}", n, sz),
+            Ok(httparse::Status::Partial) => "P n=0 hc=0 size=-".to_string(),
+            Err(_) => "E:ChunkSize n=0 hc=0 size=-".to_string(),
+        },
+    }
+}
+
+pub fn cmd_scale(args: &[String]) {
+    let big: usize = args.get(0).and_then(|s| s.parse().ok()).unwrap_or(9 << 20);
+    let only: Option<&String> = args.get(1);
+    extern "C" { fn alarm(seconds: u32) -> u32; }
+    for size in [320usize, 640, big] {
+        for f in cost_families_ex(size) {
+            if let Some(o) = only { if o != f.name { continue; } }
+            // the message itself, and (for heads whose run lies in the header block) the block alone
+            let mut subjects: Vec<(&str, Vec<u8>)> = vec![(f.kind, f.buf.clone())];
+            for line in [&b"GET / HTTP/1.1\r\n"[..], &b"HTTP/1.1 200 OK\r\n"[..]] {
+                if f.cfg == 0 && f.pre >= line.len() && f.buf.starts_with(line) { subjects.push(("hdrs", f.buf[line.len()..].to_vec())); }
+            }
+            for (kind, base) in subjects {
+                let cap = base.iter().filter(|&&b| b == b'\n').count() + 2;
+                let entries: &[&str] = match kind { "req" => &["parse", "cfg", "parse_uninit", "cfg_uninit"], "resp" => &["parse", "cfg", "cfg_uninit"], _ => &["only"] };
+                let run_end = base.len() - f.tail;
+                let mut vars: Vec<(&str, Vec<u8>)> = Vec::new();
+                vars.push(("whole", base.clone()));
+                vars.push(("cut-1", base[..base.len() - 1].to_vec()));
+                vars.push(("cut-in-run", base[..run_end - (f.unit * 3).min(run_end)].to_vec()));
+                let mut x = base.clone(); if run_end >= 1 { x[run_end - 1] = 0; } vars.push(("nul-at-end-of-run", x));
+                let mut x = base.clone(); x.extend_from_slice(b"\0\0\0\0\0\0\0\0body"); vars.push(("with-body", x));
+                for (vname, buf) in vars {
+                    for e in entries {
+                        println!("begin {} {} {} {} len={}", f.name, kind, vname, e, buf.len());
+                        // SAFETY: plain libc call (watchdog: a parse that does not return kills the process)
+                        unsafe { alarm(120) };
+                        let o = scale_obs(kind, e, f.cfg, &buf, cap);
+                        // SAFETY: plain libc call
+                        unsafe { alarm(0) };
+                        println!("scale {} {} {} {} cfg={} len={} {}", f.name, kind, vname, e, f.cfg, buf.len(), o);
+                    }
+                }
+            }
         }
     }
 }
